@@ -5,13 +5,16 @@
    ----------------------------------------------  ---------------------------
    EventFileParser::parse_batch_time               batch_time
    EventFileParser::parse_timing_prefix            timing_prefix
-   `if starts_with('{') parse_jsonl_line else      parse_event_text   (the two event-line parsers
-        parse_event_line` (in parse and parse_line)                    are Section variables)
+   EventFileParser::parse_event_text               parse_event_text   (the two event-line parsers
+     (`{`-dispatch, also inlined in `parse`)                           are Section variables)
    EventFileParser::parse  (one loop iteration)    preload_line
    EventFileParser::parse                          preload
-   EventFileParser::parse_line                     parse_line
+   EventFileParser::parse_file_line                file_line          (what StreamingEventReader::next
+                                                                       calls on every read_line piece)
    StreamingEventReader::next, driven until the    stream
      first Err (what `simulate --immediate` does)
+   The public EventFileParser::parse_line (skips BATCH and @ lines, used by neither reader) is
+   not modelled.
 
    A file is its text (list of Unicode scalar values); files that are not valid UTF-8 are outside
    the model (both readers reject them: read_to_string / read_line fail).
@@ -116,8 +119,8 @@ Section Readers.
     end.
   Definition preload (file : str) : outcome (list (N * Ev)) := preload_go (str_lines file) 0 [].
 
-  (* EventFileParser::parse_line *)
-  Definition parse_line (raw : str) : outcome (option Ev) :=
+  (* EventFileParser::parse_file_line *)
+  Definition file_line (raw : str) : outcome (option Ev) :=
     let line := trim raw in
     if is_skip line then Ok None
     else if starts_with (s2l "BATCH") line then
@@ -138,7 +141,7 @@ Section Readers.
     match segs with
     | [] => Ok (rev acc)
     | s :: r => if max_line <? utf8_len s then stream_go r acc
-                else match parse_line s with
+                else match file_line s with
                      | Ok None => stream_go r acc
                      | Ok (Some e) => stream_go r (e :: acc)
                      | Reject => Reject
